@@ -14,7 +14,7 @@
    (C11_registered_spec).  No hypothesis on histories: repeats, removals of unknown pairs
    and unparsable crontabs are all included. *)
 From Coq Require Import Permutation.
-From Verif Require Import Common C11_Model C11_Spec C11_Proofs.
+From Verif Require Import Common C11_Model C11_Spec C11_Proofs C11_Hm C11_HmSpec C11_HmProofs.
 
 (* the whole decidable predicate P of C11_Spec (cron entries after every operation of a
    system of hooks sharing one manager; per-hook answers to every firing - a string
@@ -255,4 +255,110 @@ Example C11_burst_hyp_met :
 Proof.
   repeat split; try (vm_compute; reflexivity); try (apply nodupb_NoDup; vm_compute; reflexivity).
   apply perm_swap.
+Qed.
+
+(* ---- the operator-level path: hooks enabled and disabled at different moments, interleaved
+   with firings (C11_Hm, C11_HmSpec) ----
+   [run_hm i]: the run of C11_Model's system with, after every operation, the TASKS the
+   operator's schedule event handler (operator.go:163-191) makes - through
+   hook.Manager.HandleScheduleEvent (hook_manager.go:304-316) and the hooks' schedule bindings
+   controllers - of every string the consumer of the schedule channel receives.
+   OEnable h = hook h's EnableScheduleBindings task is handled; tick, enable hook A, tick,
+   enable hook B, tick, disable hook A, tick ... are histories like all others.
+   [ids_distinct]: within one hook the binding ids (uuids) are distinct. *)
+
+(* the whole decidable predicate P_hm of C11_HmSpec - C11_Spec.P on the cron entries and the
+   controllers' answers, and for every firing (OFire, OTick, OTickAll, a catching-up of the
+   consumer) the multiset of tasks created = one task per binding with that crontab of the
+   hooks enabled at that moment - holds of the model on EVERY input *)
+Theorem C11_hm_P_holds : forall i, P_hm i (run_hm i) = true.
+Proof. exact P_hm_holds. Qed.
+Print Assumptions C11_hm_P_holds.
+
+(* after ANY sequence of operations a firing of crontab c yields exactly the tasks of the
+   bindings with crontab c of the hooks enabled NOW ([snd st] = the enabled flags as the
+   Spec tracks them), hook by hook in the order of the hooks' paths *)
+Theorem C11_hm_firing_yields_tasks_of_bindings_enabled_now : forall i ops c,
+  let s := fold_left (fun s o => fst (sys_step i s o)) ops (sys_init i) in
+  let st := fold_left (spec_step (i_hooks i)) ops (spec_init (i_hooks i)) in
+  ids_distinct (i_hooks i) = true ->
+  hm_handle c (i_hooks i) (s_links s) = expected_from 0 c (i_hooks i) (snd st).
+Proof. exact hm_firing_now. Qed.
+Print Assumptions C11_hm_firing_yields_tasks_of_bindings_enabled_now.
+
+(* in words: t is among the tasks of a firing of c iff it is THE task of a binding b with
+   crontab c of a hook h that is enabled at that moment - that binding's queue, name, group,
+   allowFailure, snapshot list *)
+Theorem C11_hm_task_iff_enabled_binding : forall i ops c t,
+  let s := fold_left (fun s o => fst (sys_step i s o)) ops (sys_init i) in
+  let st := fold_left (spec_step (i_hooks i)) ops (spec_init (i_hooks i)) in
+  ids_distinct (i_hooks i) = true ->
+  (In t (hm_handle c (i_hooks i) (s_links s))
+   <-> exists h b, t = task_of_binding (N.of_nat h) b
+                   /\ nth h (snd st) false = true /\ In b (nth h (i_hooks i) []) /\ b_crontab b = c).
+Proof. exact hm_task_iff. Qed.
+Print Assumptions C11_hm_task_iff_enabled_binding.
+
+(* the hook manager remembers nothing about earlier firings: two histories after which the
+   same hooks are enabled give the same tasks for every firing (a hook enabled after the
+   first firing of a crontab it shares is served like one enabled before it) *)
+Theorem C11_hm_history_independent : forall i ops1 ops2 c,
+  let s1 := fold_left (fun s o => fst (sys_step i s o)) ops1 (sys_init i) in
+  let s2 := fold_left (fun s o => fst (sys_step i s o)) ops2 (sys_init i) in
+  ids_distinct (i_hooks i) = true ->
+  snd (fold_left (spec_step (i_hooks i)) ops1 (spec_init (i_hooks i)))
+  = snd (fold_left (spec_step (i_hooks i)) ops2 (spec_init (i_hooks i))) ->
+  hm_handle c (i_hooks i) (s_links s1) = hm_handle c (i_hooks i) (s_links s2).
+Proof. exact hm_history_independent. Qed.
+Print Assumptions C11_hm_history_independent.
+
+(* "keeps firing while at least one binding is registered": after any history, an enabled
+   binding whose crontab is parsable and has a registered id has exactly one cron entry, and
+   a round of firings yields its task - also when the hooks it shared the crontab with were
+   disabled meanwhile *)
+Theorem C11_hm_registered_binding_keeps_firing : forall i ops h b,
+  let s := fold_left (fun s o => fst (sys_step i s o)) ops (sys_init i) in
+  let st := fold_left (spec_step (i_hooks i)) ops (spec_init (i_hooks i)) in
+  ids_distinct (i_hooks i) = true ->
+  nth h (snd st) false = true -> In b (nth h (i_hooks i) []) ->
+  fires (valid_of (i_invalid i)) (fst st) (b_crontab b) = true ->
+  cron_count (b_crontab b) (s_sm s) = 1%nat
+  /\ In (task_of_binding (N.of_nat h) b) (hm_tasks (i_hooks i) (s_links s) (map snd (cron (s_sm s)))).
+Proof. exact hm_keeps_firing. Qed.
+Print Assumptions C11_hm_registered_binding_keeps_firing.
+
+(* the decision procedure used by P_hm accepts exactly the permutations *)
+Theorem C11_hm_check_tasks_is_permutation : forall hooks en cs ts,
+  check_tasks hooks en cs ts = true <-> Permutation ts (expected_tasks hooks en cs).
+Proof. exact check_tasks_iff. Qed.
+Print Assumptions C11_hm_check_tasks_is_permutation.
+
+(* non-vacuity.  Hooks 0 and 1 share crontab c2 (hook 1's binding has its own queue), hook 2
+   is on c3.  Hook 0 and hook 2 are enabled, c2 fires (one task, hook 0), hook 1 is enabled,
+   c2 fires (two tasks), hook 0 is disabled - c2 is still registered for hook 1 and keeps its
+   cron entry - c2 fires (one task, hook 1). *)
+Definition ex_late : input :=
+  mkIn [ [mkB 11 c2 101 0 false [] 0]; [mkB 21 c2 201 0 false [] 2]; [mkB 31 c3 301 0 false [] 0] ]%N
+       [] [c2; c3] [OEnable 0; OEnable 2; OTick 0; OEnable 1; OTick 0; ODisable 0; OTick 0; OTickAll]%N.
+
+Example C11_hm_hyp_met :
+  ids_distinct (i_hooks ex_late) = true
+  /\ map h_tasks (run_hm ex_late)
+     = [ []; []; [task_of_binding 0 (mkB 11 c2 101 0 false [] 0)]; [];
+         [task_of_binding 0 (mkB 11 c2 101 0 false [] 0); task_of_binding 1 (mkB 21 c2 201 0 false [] 2)]; [];
+         [task_of_binding 1 (mkB 21 c2 201 0 false [] 2)];
+         [task_of_binding 1 (mkB 21 c2 201 0 false [] 2); task_of_binding 2 (mkB 31 c3 301 0 false [] 0)] ]%N
+  /\ map (fun o => o_cron (h_obs o)) (run_hm ex_late)
+     = [ [(1, c2)]; [(1, c2); (2, c3)]; [(1, c2); (2, c3)]; [(1, c2); (2, c3)]; [(1, c2); (2, c3)];
+         [(1, c2); (2, c3)]; [(1, c2); (2, c3)]; [(1, c2); (2, c3)] ]%N
+  /\ (let ops := [OEnable 0; OEnable 2; OTick 0; OEnable 1; OTick 0; ODisable 0]%N in
+      let st := fold_left (spec_step (i_hooks ex_late)) ops (spec_init (i_hooks ex_late)) in
+      snd st = [false; true; true]
+      /\ fires (valid_of (i_invalid ex_late)) (fst st) c2 = true
+      /\ In (mkB 21 c2 201 0 false [] 2)%N (nth 1 (i_hooks ex_late) []))
+  (* two histories with the same hooks enabled at the end *)
+  /\ snd (fold_left (spec_step (i_hooks ex_late)) [OEnable 0; OTick 0; OEnable 1]%N (spec_init (i_hooks ex_late)))
+     = snd (fold_left (spec_step (i_hooks ex_late)) [OEnable 1; OEnable 0]%N (spec_init (i_hooks ex_late))).
+Proof.
+  repeat split; try (vm_compute; reflexivity). vm_compute. now left.
 Qed.
